@@ -138,10 +138,32 @@ def _is_whole_text_hash(fn: ast.FunctionDef) -> bool:
 def _bound_kinds(pc, cfg, event):
     """Classification of every bound parameter of an execute() call, by position."""
     c = event.call
-    if len(c.args) < 2 or not isinstance(c.args[1], (ast.Tuple, ast.List)):
+
+    def tuple_of(e):
+        """the tuple display a name stands for (its single reaching definition), or the display itself"""
+        if isinstance(e, (ast.Tuple, ast.List)):
+            return e
+        if isinstance(e, ast.Name):
+            rd = [d for d in reaching_defs(cfg, e.id)[event.node.id] if d != cfg.entry]
+            if len(rd) == 1:
+                v = def_value(cfg.nodes[rd[0]], e.id)
+                if isinstance(v, (ast.Tuple, ast.List)):
+                    return v
         return None
+
+    if len(c.args) < 2 or tuple_of(c.args[1]) is None:
+        return None
+    elts = []
+    for e in tuple_of(c.args[1]).elts:
+        if isinstance(e, ast.Starred):
+            inner = tuple_of(e.value)
+            if inner is None:
+                return None
+            elts.extend(inner.elts)
+        else:
+            elts.append(e)
     kinds = []
-    for e in c.args[1].elts:
+    for e in elts:
         if isinstance(e, ast.Name):
             rd = reaching_defs(cfg, e.id)[event.node.id]
             ks = set()
@@ -591,6 +613,14 @@ def r01_8(ctx, rep):
         for s in block:
             if isinstance(s, ast.Assign) and isinstance(s.value, ast.List) and s.value.elts and all(isinstance(x, ast.Tuple) for x in s.value.elts):
                 expected = literal(s.value)
+        if expected is None:
+            # the layout written in place (or kept as a module constant, which the engine puts back where it is read): `columns != [(0, ...), ...]`
+            for s in block:
+                for c_ in ast.walk(s.test if isinstance(s, ast.If) else s.value if isinstance(s, ast.Assign) else ast.Pass()):
+                    if isinstance(c_, ast.Compare):
+                        for o_ in [c_.left] + list(c_.comparators):
+                            if isinstance(o_, ast.List) and o_.elts and all(isinstance(x, ast.Tuple) for x in o_.elts) and expected is None:
+                                expected = literal(o_)
         if table not in creates:
             rep.ob(R, SITE_STRUCT, "layout:" + str(table), False, "no CREATE TABLE literal for checked table %s" % table)
             continue
@@ -758,6 +788,12 @@ def r01_14(ctx, rep):
                 fetched.append(st.targets[0].id)
             if isinstance(st.value, ast.List) and st.value.elts and all(isinstance(x, ast.Tuple) for x in st.value.elts):
                 expected.append(st.targets[0].id)
+    # ... or the layout literal written in the comparison itself
+    for c in ast.walk(fn):
+        if isinstance(c, ast.Compare):
+            for o_ in [c.left] + list(c.comparators):
+                if isinstance(o_, ast.List) and o_.elts and all(isinstance(x, ast.Tuple) for x in o_.elts):
+                    expected.append(norm(o_))
     fetched, expected = sorted(set(fetched)), sorted(set(expected))
     if not fetched or not expected:
         raise MechanismMissing(R, "fetched column list / expected layout literal not found in _check_database_structure")
@@ -908,7 +944,7 @@ def once_per_process_key(ctx, rep, R):
             for e in n.value.elts:
                 keys.append(("initialised with", norm(e)))
     distinct = {k for _w, k in keys}
-    rep.ob(R, site, "the once-per-process memo is keyed by the database connected to", len(distinct) == 1 and distinct <= conn_args and len(keys) >= 3,
+    rep.ob(R, site, "the once-per-process memo is keyed by the database connected to", len(distinct) == 1 and distinct <= conn_args and any(w == "tested" for w, _k in keys) and any(w != "tested" for w, _k in keys),
            "parse.%s is %s while the connection is opened on %s: a second database in the same folder (another cache_db name) or the same name in "
            "another folder is taken as already checked — its integrity and layout check and the table creation are skipped and the first query fails"
            % (memo, ", ".join("%s %s" % k for k in keys), sorted(conn_args)))
